@@ -134,9 +134,17 @@ RidgeUp(c, d, lamUp) ==
 \* lower bound of cond(A + dI) on the unpadded block: lambda_max / (lambda_min + d)
 CondLo(c, d, lamUp) == DMulDown(LamMax(c), DInvDown(DAddDown(AMin(c), RidgeUp(c, d, lamUp))))
 
-\* rounding slack  100 * n * p * u * cond(A + dI),  u = 2^-53 >= 1.11022302e-16
+\* rounding slack  SlackC * n * p * u * cond(A + dI),  u = 2^-53 >= 1.11022302e-16.
+\* SlackC: over 47 000 lattice cases the measured excess of the residual over the figure stays
+\* below 14 * n * p * u * cond for cond <= 1e13 (worst: Newton, n = 2, p = 8); 1000 leaves > 70x.
+SlackC == 1000
 ULo == <<111022302, -24>>
-Slack(c, d, lamUp) == DMulDown(DMulDown(DFromInt(100 * c.n * c.p), ULo), CondLo(c, d, lamUp))
+Slack(c, d, lamUp) == DMulDown(DMulDown(DFromInt(SlackC * c.n * c.p), ULo), CondLo(c, d, lamUp))
+\* The numerical clause is stated for cond(A + dI) <= 1e13 (the property quantifies over spreads
+\* up to 1e8 after the ridge; the lattice reaches 1e12 with epsilon = 1e-12 on rank-deficient
+\* input).  Beyond that u * cond approaches 1 and float64 carries no information about X^p (A+dI).
+\* CondLo is a lower bound, so borderline cases are judged rather than skipped.
+NumDomain(c, d, lamUp) == DLe(CondLo(c, d, lamUp), DPow10(13))
 
 \* a float32 report r stands for some real in r * (1 -+ 2^-23);  2^-23 >= 1.192e-7
 TwoM23Lo == <<119200000, -15>>
